@@ -204,9 +204,34 @@ class Family:
         for p in self.paths(method):
             if refuse is not None and not self._consistent(fn, p, refuse):
                 continue
+            if not self._flags_consistent(p, st0):
+                continue
             for oc in self._replay_path(fn, p, st0, cfg, refuse):
                 out.append(oc)
         return out
+
+    def _flags_consistent(self, p: Path, st: "FamState") -> bool:
+        """Quick rejection: tests of a capability flag that happen before the path assigns that flag must agree with the state."""
+        if not hasattr(self, "_flagtests"):
+            self._flagtests = {}
+        ft = self._flagtests.get(id(p))
+        if ft is None:
+            ft = []
+            written = set()
+            for ev in p.events:
+                if ev.kind == "stmt":
+                    for a, _, _ in self_store(ev.node):
+                        written.add(a)
+                elif ev.kind == "test":
+                    c = chain(ev.node)
+                    if c and len(c) == 2 and c[0] == "self" and c[1].startswith("_has_") and c[1] not in written:
+                        ft.append((c[1], ev.data))
+            self._flagtests[id(p)] = ft
+        for attr, want in ft:
+            v = st.flags.get(attr)
+            if v is not None and v != want:
+                return False
+        return True
 
     def _signature(self, fn: FuncInfo, p: Path):
         """Static list of the oracle decisions a path takes: [(cmd, 'ok'|'rejected'|'failed'|'illegal'|'rejected-other')]"""
